@@ -135,6 +135,16 @@ def check_soo(ctx):
     ctx.ob("R08-SWEEP", len(vm) == 2, c.file, q, "v_max only reset per sweep and raised on expansion", "%s" % [norm_src(s) for s in vm], pull.lineno, nontrivial=False)
     hs = [norm_src(s) for s in ast.walk(pull) if isinstance(s, (ast.Assign, ast.AugAssign)) and norm_src(s.targets[0] if isinstance(s, ast.Assign) else s.target) == "h"]
     ctx.ob("R08-SWEEP", sorted(hs) == ["h += 1", "h = 0"], c.file, q, "depths visited top-down, one by one", "%s" % hs, pull.lineno, nontrivial=False)
+    # the cap the sweep compares with is the caller's h_max itself (a rounded-up cap lets a deeper layer be evaluated)
+    init = model.own_method("SOO", "__init__")
+    try:
+        Si = SM.Summarizer(model, "SOO")
+        pi = [p for p in Si.run(init) if not p.raises]
+        okh = bool(pi) and all(p.stores.get("h_max") == Si.T.sym("h_max") for p in pi)
+        whyh = "self.h_max = h_max on every constructor path" if okh else "self.h_max is %s" % sorted({str(p.stores.get("h_max")) for p in pi})
+    except (SM.HasLoop, SX.Untranslatable) as ex:
+        okh, whyh = False, "cannot read the constructor: %s" % ex
+    ctx.ob("R08-CAP", okh, c.file, "SOO.__init__", "the depth cap is stored unchanged", whyh, init.lineno)
 
 
 def visit_ok(ctx, ncls):
